@@ -114,10 +114,37 @@ func Derives(v ssa.Value, pred func(ssa.Value) bool, o FlowOpts) (ssa.Value, boo
 				return try(o.Callers(x)...)
 			}
 		case *ssa.Alloc:
-			// value stored into the alloc (address-taken locals)
+			// value stored into the alloc (address-taken locals), or into an element /
+			// field of it (varargs arrays, composite literals)
 			for _, st := range StoresTo(x, nil) {
 				if w, ok := walk(st.Val, depth+1); ok {
 					return w, true
+				}
+			}
+			if fn := x.Parent(); fn != nil {
+				var vals []ssa.Value
+				Instrs(fn, func(in ssa.Instruction) {
+					st, ok := in.(*ssa.Store)
+					if !ok || st.Addr == ssa.Value(x) {
+						return
+					}
+					a := st.Addr
+					for i := 0; i < 4; i++ {
+						switch y := a.(type) {
+						case *ssa.IndexAddr:
+							a = y.X
+						case *ssa.FieldAddr:
+							a = y.X
+						}
+					}
+					if a == ssa.Value(x) {
+						vals = append(vals, st.Val)
+					}
+				})
+				for _, v := range vals {
+					if w, ok := walk(v, depth+1); ok {
+						return w, true
+					}
 				}
 			}
 		case *ssa.FreeVar:
